@@ -67,11 +67,27 @@ Proof.
   - pair_inv H. exists None. reflexivity.
   - break_lets; pair_inv H; exists None; reflexivity.
   - break_lets; pair_inv H; exists None; reflexivity.
-  - destruct (hk_fails k); [eapply do_fail_a_fop; exact H|].
-    pair_inv H. destruct (anon_resets V); [|exists None; reflexivity].
-    cbn [fails set_fails]. destruct (N.eqb_spec ip ip0) as [->|Hne].
-    + exists (Some FSucc). rewrite upd_same. reflexivity.
-    + exists None. rewrite upd_other by exact Hne. reflexivity.
+  - assert (Hreset : forall s0 (b : bool), fails s0 = fails s -> now s0 = now s ->
+              exists o, fails (if b then set_fails s0 (upd (fails s0) ip0 None) else s0) ip
+                        = apply_fop C (fails s ip) (now s) o).
+    { intros s0 b Hf0 _. destruct b; cbn [fails set_fails]; rewrite Hf0; [|exists None; reflexivity].
+      destruct (N.eqb_spec ip ip0) as [->|Hne].
+      + exists (Some FSucc). rewrite upd_same. reflexivity.
+      + exists None. rewrite upd_other by exact Hne. reflexivity. }
+    assert (Hfail : forall s0, fails s0 = fails s -> now s0 = now s ->
+              do_fail_a C s0 ip0 3%N 3%N = (p', s', r) ->
+              exists o, fails s' ip = apply_fop C (fails s ip) (now s) o).
+    { intros s0 Hf0 Hn0 E. destruct (do_fail_a_fop C s0 ip0 _ _ _ _ _ ip E) as [o Ho].
+      exists o. rewrite Ho, Hf0, Hn0. reflexivity. }
+    destruct k as [| | | |c|c good]; cbn [auth_fails] in H.
+    + exact (Hfail s eq_refl eq_refl H).
+    + injection H as <- <- <-. exact (Hreset s (anon_resets V) eq_refl eq_refl).
+    + exact (Hfail s eq_refl eq_refl H).
+    + exact (Hfail s eq_refl eq_refl H).
+    + injection H as <- <- <-. exists None. reflexivity.
+    + destruct (negb (chal s c && good)).
+      * exact (Hfail (set_chal s (upd (chal s) c false)) eq_refl eq_refl H).
+      * injection H as <- <- <-. exact (Hreset (set_chal s (upd (chal s) c false)) true eq_refl eq_refl).
 Qed.
 
 Lemma tstep_fop V C l s l' s' ip : tstep V C l s = (l', s') ->
